@@ -12,6 +12,7 @@ INVARIANT TypeOK
 INVARIANT Symmetric
 INVARIANT ZeroDiagonal
 INVARIANT ClassesSymmetric
+INVARIANT ScaleInvariant
 INVARIANT ColumnOrderFree
 INVARIANT ShortcutSound
 INVARIANT ShortcutKeepsComputed
